@@ -13,6 +13,7 @@ MON_DATA = {
     "burgers": [],
     "euler": ["density", "pressure", "mach", "velocity", "massflow"],
     "shallowwater": ["height", "velocity", "massflow"],
+    "euler2d": ["density", "pressure", "mach", "velocity_x", "velocity_y"],
 }
 PLACEMENT_KINDS = ["start", "start_minus", "inside", "twice", "burst", "boundary",
                    "sumboundary", "stop", "beyond", "lin"]
@@ -49,7 +50,7 @@ def gen_world(rng, prop):
         dxmin = 0.125
     else:
         ncell = rng.choice([3, 4, 5, 6, 8, 10])
-        mk = wchoice(rng, [("convection", 35), ("burgers", 25), ("euler", 25), ("shallowwater", 15)])
+        mk = wchoice(rng, [("convection", 33), ("burgers", 22), ("euler", 22), ("shallowwater", 13), ("euler2d", 10)])
         if mk == "convection":
             a = rng.choice([1.0, -1.0, 2.0, 0.5])
             w["model"] = {"kind": mk, "a": fhex(a)}
@@ -60,10 +61,18 @@ def gen_world(rng, prop):
         elif mk == "euler":
             w["model"] = {"kind": mk, "flux": rng.choice(["hllc", "hlle"])}
             speed = 2.0
+        elif mk == "euler2d":
+            w["model"] = {"kind": mk, "flux": rng.choice(["hlle", "centered"])}
+            speed = 2.0
         else:
             w["model"] = {"kind": mk, "flux": rng.choice(["hll", "rusanov"])}
             speed = 4.5
-        if ncell >= 4 and rng.random() < 0.25:
+        if mk == "euler2d":
+            nx, ny = rng.choice([3, 4]), rng.choice([3, 4])
+            ncell = nx * ny
+            w["mesh"] = {"kind": "uni2d", "nx": nx, "ny": ny, "ncell": ncell}
+            dxmin = (1. / nx) * (1. / ny) / (1. / nx + 1. / ny)
+        elif ncell >= 4 and rng.random() < 0.25:
             w["mesh"] = {"kind": "refined", "ncell": ncell, "length": fhex(ncell * 0.125),
                          "ratio": fhex(rng.choice([2.0, 0.5, 3.0]))}
             dxmin = 0.125 / 2.5
@@ -71,6 +80,8 @@ def gen_world(rng, prop):
             w["mesh"] = {"kind": "uni", "ncell": ncell, "length": fhex(ncell * 0.125)}
             dxmin = 0.125
         w["num"] = wchoice(rng, [("extrapol1", 40), ("extrapol3", 25), ("muscl_minmod", 20), ("muscl_vanleer", 15)])
+        if mk == "euler2d":
+            w["num"] = rng.choice(["extrapol2d1", "extrapol2dk"])
     mkind = w["model"]["kind"]
     # solvers
     ns = wchoice(rng, [(1, 60), (2, 30), (3, 10)] if prop == "C07" else [(1, 50), (2, 35), (3, 15)])
@@ -83,6 +94,8 @@ def gen_world(rng, prop):
                                 ("cranknicolson", 20), ("gear", 40)])
         else:
             cls = rng.choice(EXPLICIT)
+        if mkind == "euler2d" and cls in IMPLICIT:
+            cls = rng.choice(EXPLICIT)  # the finite-difference Jacobian does not support vector data
         s = {"cls": cls, "disc": 0 if shared else i}
         if rng.random() < 0.2:
             s["cmon"] = gen_monspec(rng, mkind, 1)
@@ -265,7 +278,11 @@ def gen_op(rng, prop, world, idx, mask, nres_ops):
         op["mon"] = gen_monspec(rng, mkind, 2)
         op["mon_id"] = rng.randrange(0, 3) if rng.random() < 0.4 else 100 + idx
     op["dir"] = {"dtlocal": True} if ("dtlocal" in mask and rng.random() < 0.25) else {}
-    if "flush" in mask and rng.random() < 0.3:
+    if rng.random() < 0.05:
+        op["dir"]["verbose"] = True
+    # (np.save of the flush history is ragged for vector-valued 2D fields and raises: an
+    #  observation about an option no claimed property mentions, so not generated there)
+    if "flush" in mask and mkind != "euler2d" and rng.random() < 0.3:
         op["flush"] = rng.choice(["ok", "ok", "short"])
     return op
 
